@@ -134,3 +134,33 @@ fn reader_agrees_u32() {
         _ => assert!(false),
     }
 }
+
+// ---- small fixed-shape compound headers (quick tier): size and count bytes fully symbolic ----
+macro_rules! hdr3 {
+    ($name:ident, $code:expr, $t:ty) => {
+        #[kani::proof]
+        #[kani::unwind(8)]
+        fn $name() {
+            let size: u8 = kani::any();
+            let count: u8 = kani::any();
+            let buf = [$code, size, count];
+            let _ = from_slice::<$t>(&buf);
+        }
+    };
+}
+hdr3!(hdr3_list8_vec, 0xc0u8, Vec<u8>);
+hdr3!(hdr3_list8_tuple, 0xc0u8, (u8,));
+hdr3!(hdr3_map8, 0xc1u8, std::collections::BTreeMap<u8, u8>);
+hdr3!(hdr3_array8, 0xe0u8, serde_amqp::primitives::Array<u8>);
+
+#[kani::proof]
+#[kani::unwind(8)]
+fn hdr_map8_one_key_no_value() {
+    // map8 with a symbolic (possibly odd) count followed by exactly one ubyte
+    let size: u8 = kani::any();
+    let count: u8 = kani::any();
+    kani::assume(count <= 3);
+    let a: u8 = kani::any();
+    let buf = [0xc1, size, count, 0x50, a];
+    let _ = from_slice::<std::collections::BTreeMap<u8, u8>>(&buf);
+}
